@@ -59,3 +59,9 @@ reg("C17", "exploration", "runtime monitor: structural span invariants (token-al
 reg("C22", "exploration", "runtime monitor: round-trip of programmatically built, position-free, parenthesis-free xgo/ast trees through printer.Fprint and the parser (bare expression, statement, if/for/switch header), shape comparison with ParenExprs deleted; failing trees are reduced to the smallest sub-tree that fails in isolation",
     "Every generated tree is printed by the real printer and re-parsed by the real parser; all binary operators, unary/star/arrow chains, postfix operations on non-primary operands and the XGo node kinds are covered.",
     "Well-formedness as generated (DESIGN.md §C22): lambdas as call arguments, bracket/brace literals not as postfix operands or as the left operand of '*', no bare `x!` directly before ':'; these exclusions are syntax that XGo cannot express without source-level parentheses chosen by the author.")
+reg("C23", "exploration", "runtime monitor: conservation invariant on the (name,path) set per import declaration and sortedness of every contiguous run after format.Source, on generated import sections (groups, names, duplicates, comments, raw paths)",
+    "The real formatter runs on every generated section; the import multiset may only shrink by exact duplicates and every run of specs on successive lines must be sorted by path.",
+    "Import paths are compared unquoted; comment attachment and group boundaries are generated for coverage but not judged (not part of the property statement).")
+reg("C24", "exploration", "runtime monitor: conservation (length, byte multiset, comment multiset) + reference model (independent bracket-depth splitter over the scanner's token stream) for RearrangeFuncs, and the SourceEx implication checked with the real format.Source",
+    "Top-level statements of input and output are compared as token sequences, so the oracle is independent of how the implementation attaches whitespace and comments to chunks.",
+    "A function declaration is `func name(` or `func (recv) name(`; func literals called in place are statements.")
